@@ -21,7 +21,9 @@ static int live[NSLOT];
 static int isnum(const tok_t *t) { return t->kind == T_NUM; }
 static int small(const tok_t *t) { return t->kind == T_NUM && !t->neg && t->n <= 1; }
 static long slot_any(const tok_t *t) { if (!small(t)) return -1; unsigned long v = tok_ulong(t); return v < NSLOT ? (long)v : -1; }
-static long slot_live(const tok_t *t) { long s = slot_any(t); return s >= 0 && live[s] ? s : -1; }
+static long slot_live(const tok_t *t) { long s = slot_any(t); return s < 0 ? -1 : live[s] ? s : -2; }
+/* a valid but uninitialised slot answers `!noinit` on both sides (keeps shrunk histories meaningful) */
+#define LIVE(s, t) do { (s) = slot_live(t); if ((s) == -1) return -1; if ((s) == -2) { out_err(o, "noinit"); return 0; } } while (0)
 static void drop(long s) { if (live[s]) { gmp_randclear(st[s]); live[s] = 0; } }
 static int done(out_t *o) { out_ulong(o, 1); return 0; }
 
@@ -48,27 +50,27 @@ static int op_rinit_lcsize(int argc, tok_t *a, out_t *o) {
   out_long(o, r); return 0;
 }
 static int op_rseed(int argc, tok_t *a, out_t *o) {
-  long s; NEED(argc == 2 && (s = slot_live(&a[0])) >= 0 && isnum(&a[1]));
+  long s; NEED(argc == 2); LIVE(s, &a[0]); NEED(isnum(&a[1]));
   mpz_t z; mpz_init(z); tok_mpz(z, &a[1]); gmp_randseed(st[s], z); mpz_clear(z); return done(o);
 }
 static int op_rseed_ui(int argc, tok_t *a, out_t *o) {
-  long s; NEED(argc == 2 && (s = slot_live(&a[0])) >= 0 && small(&a[1]));
+  long s; NEED(argc == 2); LIVE(s, &a[0]); NEED(small(&a[1]));
   gmp_randseed_ui(st[s], tok_ulong(&a[1])); return done(o);
 }
 static int op_rcopy(int argc, tok_t *a, out_t *o) {
-  long d, s; NEED(argc == 2 && (d = slot_any(&a[0])) >= 0 && (s = slot_live(&a[1])) >= 0 && d != s);
+  long d, s; NEED(argc == 2 && (d = slot_any(&a[0])) >= 0); LIVE(s, &a[1]); NEED(d != s);
   drop(d); gmp_randinit_set(st[d], st[s]); live[d] = 1; return done(o);
 }
 static int op_rclear(int argc, tok_t *a, out_t *o) {
-  long s; NEED(argc == 1 && (s = slot_live(&a[0])) >= 0); drop(s); return done(o);
+  long s; NEED(argc == 1); LIVE(s, &a[0]); drop(s); return done(o);
 }
 
 static int op_urandomb(int argc, tok_t *a, out_t *o) {
-  long s; NEED(argc == 2 && (s = slot_live(&a[0])) >= 0 && small(&a[1]) && tok_ulong(&a[1]) <= MAXBITS);
+  long s; NEED(argc == 2); LIVE(s, &a[0]); NEED(small(&a[1]) && tok_ulong(&a[1]) <= MAXBITS);
   mpz_t r; mpz_init2(r, 1); mpz_urandomb(r, st[s], tok_ulong(&a[1])); out_mpz(o, r); mpz_clear(r); return 0;
 }
 static int do_urandomm(int alias, int argc, tok_t *a, out_t *o) {
-  long s; NEED(argc == 2 && (s = slot_live(&a[0])) >= 0 && isnum(&a[1]));
+  long s; NEED(argc == 2); LIVE(s, &a[0]); NEED(isnum(&a[1]));
   mpz_t r, n; mpz_init2(r, 1); mpz_init(n); tok_mpz(n, &a[1]); int e;
   if (alias) { tok_mpz(r, &a[1]); e = GUARD(mpz_urandomm(r, st[s], r)); }
   else e = GUARD(mpz_urandomm(r, st[s], n));
@@ -78,46 +80,46 @@ static int do_urandomm(int alias, int argc, tok_t *a, out_t *o) {
 static int op_urandomm(int c, tok_t *a, out_t *o) { return do_urandomm(0, c, a, o); }
 static int op_urandomm_alias(int c, tok_t *a, out_t *o) { return do_urandomm(1, c, a, o); }
 static int op_urandomb_ui(int argc, tok_t *a, out_t *o) {
-  long s; NEED(argc == 2 && (s = slot_live(&a[0])) >= 0 && small(&a[1]));
+  long s; NEED(argc == 2); LIVE(s, &a[0]); NEED(small(&a[1]));
   out_ulong(o, gmp_urandomb_ui(st[s], tok_ulong(&a[1]))); return 0;
 }
 static int op_urandomm_ui(int argc, tok_t *a, out_t *o) {
-  long s; NEED(argc == 2 && (s = slot_live(&a[0])) >= 0 && small(&a[1]));
+  long s; NEED(argc == 2); LIVE(s, &a[0]); NEED(small(&a[1]));
   mpir_ui r = 0; int e = GUARD(r = gmp_urandomm_ui(st[s], tok_ulong(&a[1])));
   if (e) out_exc(o, e); else out_ulong(o, r); return 0;
 }
 static int op_rrandomb(int argc, tok_t *a, out_t *o) {
-  long s; NEED(argc == 2 && (s = slot_live(&a[0])) >= 0 && small(&a[1]) && tok_ulong(&a[1]) <= MAXBITS);
+  long s; NEED(argc == 2); LIVE(s, &a[0]); NEED(small(&a[1]) && tok_ulong(&a[1]) <= MAXBITS);
   mpz_t r; mpz_init2(r, 1); mpz_rrandomb(r, st[s], tok_ulong(&a[1])); out_mpz(o, r); mpz_clear(r); return 0;
 }
 static int fin(out_t *o, mp_limb_t *rp, long n) { out_vec(o, rp, n); if (!dst_ok(rp, n)) out_err(o, "oob"); dst_free(rp); return 0; }
 static int op_mpn_urandomb(int argc, tok_t *a, out_t *o) {
-  long s; NEED(argc == 2 && (s = slot_live(&a[0])) >= 0 && small(&a[1]) && tok_ulong(&a[1]) >= 1 && tok_ulong(&a[1]) <= MAXBITS);
+  long s; NEED(argc == 2); LIVE(s, &a[0]); NEED(small(&a[1]) && tok_ulong(&a[1]) >= 1 && tok_ulong(&a[1]) <= MAXBITS);
   unsigned long nb = tok_ulong(&a[1]); long n = (nb + 63) / 64; mp_limb_t *rp = dst_new(n);
   mpn_urandomb(rp, st[s], nb); return fin(o, rp, n);
 }
 static int op_mpn_urandomm(int argc, tok_t *a, out_t *o) {
-  long s; NEED(argc == 2 && (s = slot_live(&a[0])) >= 0 && a[1].kind == T_VEC && a[1].n >= 1 && a[1].d[a[1].n - 1] != 0);
+  long s; NEED(argc == 2); LIVE(s, &a[0]); NEED(a[1].kind == T_VEC && a[1].n >= 1 && a[1].d[a[1].n - 1] != 0);
   long n = a[1].n; mp_limb_t *rp = dst_new(n);
   mpn_urandomm(rp, st[s], a[1].d, n); return fin(o, rp, n);
 }
 static int op_mpn_randomb(int argc, tok_t *a, out_t *o) {
-  long s; NEED(argc == 2 && (s = slot_live(&a[0])) >= 0 && small(&a[1]) && tok_ulong(&a[1]) >= 1 && tok_ulong(&a[1]) <= MAXBITS / 64);
+  long s; NEED(argc == 2); LIVE(s, &a[0]); NEED(small(&a[1]) && tok_ulong(&a[1]) >= 1 && tok_ulong(&a[1]) <= MAXBITS / 64);
   long n = tok_ulong(&a[1]); mp_limb_t *rp = dst_new(n);
   mpn_randomb(rp, st[s], n); return fin(o, rp, n);
 }
 static int op_mpn_rrandom(int argc, tok_t *a, out_t *o) {
-  long s; NEED(argc == 2 && (s = slot_live(&a[0])) >= 0 && small(&a[1]) && tok_ulong(&a[1]) >= 1 && tok_ulong(&a[1]) <= MAXBITS / 64);
+  long s; NEED(argc == 2); LIVE(s, &a[0]); NEED(small(&a[1]) && tok_ulong(&a[1]) >= 1 && tok_ulong(&a[1]) <= MAXBITS / 64);
   long n = tok_ulong(&a[1]); mp_limb_t *rp = dst_new(n);
   mpn_rrandom(rp, st[s], n); return fin(o, rp, n);
 }
 static int op_mpf_urandomb(int argc, tok_t *a, out_t *o) {
-  long s; NEED(argc == 3 && (s = slot_live(&a[0])) >= 0 && small(&a[1]) && small(&a[2]) && tok_ulong(&a[1]) <= MAXBITS && tok_ulong(&a[2]) <= MAXBITS);
+  long s; NEED(argc == 3); LIVE(s, &a[0]); NEED(small(&a[1]) && small(&a[2]) && tok_ulong(&a[1]) <= MAXBITS && tok_ulong(&a[2]) <= MAXBITS);
   mpf_t f; mpf_init2(f, tok_ulong(&a[1])); mpf_urandomb(f, st[s], tok_ulong(&a[2])); out_mpf(o, f); mpf_clear(f); return 0;
 }
 /* two slots the history has put in the same state: draw from both, print `1 value` when equal, `0 v1 v2` otherwise */
 static int op_same(int argc, tok_t *a, out_t *o) {
-  long s, t; NEED(argc == 3 && (s = slot_live(&a[0])) >= 0 && (t = slot_live(&a[1])) >= 0 && s != t && small(&a[2]) && tok_ulong(&a[2]) <= MAXBITS);
+  long s, t; NEED(argc == 3); LIVE(s, &a[0]); LIVE(t, &a[1]); NEED(s != t && small(&a[2]) && tok_ulong(&a[2]) <= MAXBITS);
   mpz_t x, y; mpz_init2(x, 1); mpz_init2(y, 1);
   mpz_urandomb(x, st[s], tok_ulong(&a[2])); mpz_urandomb(y, st[t], tok_ulong(&a[2]));
   int eq = mpz_wf(x) && mpz_wf(y) && x->_mp_size == y->_mp_size && memcmp(x->_mp_d, y->_mp_d, (size_t)x->_mp_size * sizeof(mp_limb_t)) == 0;
@@ -127,7 +129,7 @@ static int op_same(int argc, tok_t *a, out_t *o) {
 /* per-bit monobit and byte chi-square over `draws` values of `nbits` bits (exact integers, no floats):
    maxdev = max_j |2*ones_j - draws|,  X = 256*sum c_b^2 - K^2,  K = draws*floor(nbits/8) */
 static int op_freq(int argc, tok_t *a, out_t *o) {
-  long s; NEED(argc == 3 && (s = slot_live(&a[0])) >= 0 && small(&a[1]) && small(&a[2]));
+  long s; NEED(argc == 3); LIVE(s, &a[0]); NEED(small(&a[1]) && small(&a[2]));
   unsigned long nbits = tok_ulong(&a[1]), draws = tok_ulong(&a[2]); NEED(nbits >= 8 && nbits <= 4096 && draws >= 1 && draws <= 1000000);
   unsigned long *ones = calloc(nbits, sizeof *ones), cnt[256] = {0}, nb = nbits / 8;
   mpz_t r; mpz_init(r);
